@@ -23,7 +23,7 @@ type Imports struct {
 }
 
 func (i *Import) String() string {
-	if strings.HasSuffix(i.Path, i.Alias) {
+	if i.Path == i.Alias || strings.HasSuffix(i.Path, "/"+i.Alias) {
 		return strconv.Quote(i.Path)
 	}
 
